@@ -18,7 +18,9 @@ def make_cases(tier, rng):
         S = rng.choice(subs)
         cases.append({"name": "s%d" % len(cases), "cookie_cfg": cc, "cookie_env": ce, "mux_var": mv, "tls": tls,
                       "served": [{"v": v, "proto": rng.choice(["netrpc", "grpc"])} for v in S],
-                      "grpc_factory": rng.random() < 0.7, "offered": rng.choice(subs + [[]])})
+                      "grpc_factory": rng.random() < 0.7, "offered": rng.choice(subs + [[]]),
+                      # entries of the offered list that are not numbers: ignored, reported on stderr, never on stdout
+                      "offered_junk": rng.sample(["", " 2", "v1", "two", "1.0", "0x1"], rng.choice([0, 0, 1, 2]))})
     # every cookie combination (with a random serve configuration each)
     for cc in CCFG:
         for ce in CENV:
